@@ -60,6 +60,10 @@ func (ps *PartitionSet) AddRange(partName, modelName string, start, end, modulo 
 			return
 		}
 		ps.partitions[i] = partitionIndex
+		// next site would be past the end: stop here (i += modulo may overflow)
+		if modulo > end-i {
+			break
+		}
 	}
 	return
 }
